@@ -7,22 +7,25 @@ P=$1; NAME=$2; PKG=$3; TF=$4; RUN=$5; TO=${6:-600s}; BLANK=$7
 # optional 7th argument: comma-separated existing test files of the package to leave out of this run (replaced, in the
 # overlay only, by bounded/stubs/<basename of pkg>_empty_test.go) - for packages whose own tests abort at init in this sandbox
 cd /verif || exit 2
+# the tree under test: /repo, unless a development run points GOVC_REPO at a scratch worktree (the registered commands never do);
+# scratch output then goes under VERIF_ROOT so that two such runs do not collide
+REPO=${GOVC_REPO:-/repo}; OUTROOT=${VERIF_ROOT:-/verif}
 export GOFLAGS=-mod=mod GOPROXY=off GOSUMDB=off GOTOOLCHAIN=local LIBRARY_PATH=/verif/build/stublibs
-mkdir -p out/replay/$P out/bounded
-OV=out/bounded/$P.$NAME.overlay.json
-{ printf '{"Replace": {"/repo/%s/zz_verif_bounded_%s_test.go": "/verif/bounded/%s"' "$PKG" "$NAME" "$TF"
-  for f in $(echo "$BLANK" | tr ',' ' '); do printf ', "/repo/%s/%s": "/verif/bounded/stubs/%s_empty_test.go"' "$PKG" "$f" "$(basename $PKG)"; done
+mkdir -p $OUTROOT/out/replay/$P $OUTROOT/out/bounded
+OV=$OUTROOT/out/bounded/$P.$NAME.overlay.json
+{ printf '{"Replace": {"%s/%s/zz_verif_bounded_%s_test.go": "/verif/bounded/%s"' "$REPO" "$PKG" "$NAME" "$TF"
+  for f in $(echo "$BLANK" | tr ',' ' '); do printf ', "%s/%s/%s": "/verif/bounded/stubs/%s_empty_test.go"' "$REPO" "$PKG" "$f" "$(basename $PKG)"; done
   printf '}}\n'; } > $OV
-OUT=out/replay/$P/bounded_$NAME.txt
+OUT=$OUTROOT/out/replay/$P/bounded_$NAME.txt
 # classes of this stand-in that are listed as known findings (KNOWN_FINDINGS.txt: obligation=bounded.<name>.<class>)
 export VERIF_KNOWN=$(grep "^finding: property=$P obligation=bounded\.$NAME\." KNOWN_FINDINGS.txt | sed "s/.*obligation=bounded\.$NAME\.\([^ ]*\).*/\1/" | tr "\n" " ")
-( cd /repo && ulimit -v 12000000; go test -v -overlay /verif/$OV -count=1 -vet=off -timeout $TO -run "$RUN" ./$PKG/ ) > $OUT 2>&1
+( cd $REPO && ulimit -v 12000000; go test -v -overlay $OV -count=1 -vet=off -timeout $TO -run "$RUN" ./$PKG/ ) > $OUT 2>&1
 rc=$?
 grep -a -h "^BOUNDED-CASES:" $OUT | tail -1
 grep -a -h "^KNOWN-FINDING:" $OUT | sort -u
 if [ $rc -ne 0 ]; then
   grep -a -h "BOUNDED-FAIL:" $OUT | head -5
-  echo "VIOLATION property=$P replay=/verif/$OUT bounded=$NAME"
+  echo "VIOLATION property=$P replay=$OUT bounded=$NAME"
   exit 1
 fi
 exit 0
